@@ -52,6 +52,7 @@ def run(R):
     names = common.names_for(R, 'C02') + LEAVES + [n for n in R.reg.REG if n.startswith('ace_time::basic::Zone') and n.endswith('() const') and 'Broker::' in n]
     names = list(dict.fromkeys(names))
     obs = check.verify_functions(R, names)
+    obs += common.avr_pass(R, names)
     check.discharge(R, obs, timeout=120)
     ground_preconditions(R)
     orc = zc.oracles(R)
